@@ -1136,7 +1136,7 @@ func main() {
 			fmt.Fprintf(&f, "\n  (%s, [%s])", leanStr(k), strings.Join(ws, ", "))
 		}
 		f.WriteString("]\n")
-		fmt.Fprintf(&f, "/-- status-code literals per source file, sorted -/\ndef %sStatusByFile : List (String × List Nat) := [", pk.name)
+		fmt.Fprintf(&f, "/-- the set of status codes named in each source file, sorted -/\ndef %sStatusByFile : List (String × List Nat) := [", pk.name)
 		first = true
 		for _, k := range fl {
 			if len(statusBy[k]) == 0 {
@@ -1148,7 +1148,10 @@ func main() {
 			first = false
 			sort.Ints(statusBy[k])
 			var ws []string
-			for _, w := range statusBy[k] {
+			for i, w := range statusBy[k] {
+				if i > 0 && statusBy[k][i-1] == w {
+					continue // a SET: the same code named at several places of a file, or behind a shared helper, is one entry
+				}
 				ws = append(ws, fmt.Sprint(w))
 			}
 			fmt.Fprintf(&f, "(%s, [%s])", leanStr(k), strings.Join(ws, ", "))
